@@ -70,6 +70,13 @@ int main() {
       if (c % 27 == 0) check(n, es, w, false);
     }
   }
+  { // weights of very different magnitudes: a path of tiny positive weights has a tiny positive length in all three routines
+    std::vector<Edge> es; es.push_back(Edge(0, 1)); es.push_back(Edge(1, 2));
+    std::valarray<double> w(2); w[0] = 4e-17; w[1] = 5e-17;
+    double r1[3], r2[3], r3[3]; double *A[3] = {r1, r2, r3}; double b1[3], b2[3], b3[3]; double *B[3] = {b1, b2, b3};
+    johnsons(3, A, es, w); floyd_warshall(3, B, es, w);
+    if (A[0][2] != 4e-17 + 5e-17 || A[0][2] != B[0][2] || A[0][1] != 4e-17) { printf("tiny weights 4e-17, 5e-17: johnsons gives D[0][1]=%g D[0][2]=%g, floyd_warshall %g\n", A[0][1], A[0][2], B[0][2]); bad++; }
+  }
   if (bad) { printf("REPRODUCED: %d entries differ from the shortest-path length\n", bad); return 1; }
   printf("not reproduced\n"); return 0;
 }
@@ -202,6 +209,50 @@ def jobs(tier):
                   bound="3 nodes (main loop unwound 5 times with an unwinding assertion); goto-instrument --dfcc with a loop contract ran out of memory on this loop",
                   domain="3 nodes with arbitrary contents, handed out by the heap in ANY order (a superset of the order a priority queue produces); the relaxation loop abstracted to a no-op on the output row",
                   expect=[r'h_dml\.assertion']))
+    # ---------------- dijkstra_init: the adjacency lists carry exactly the given edge weights (T = double here: weights are compared bit for bit)
+    di = slice_func(SP, r'^void dijkstra_init\(\s*$', "dijkstra_init")
+    _, dib = fragment_loop(di, r'for\(unsigned i=0;i<es\.size\(\);i\+\+\)', "dijkstra_init [loop body: one edge]")
+    # two projections of the body (both together exhaust the solver's memory): the statements about the WEIGHTS, and those about the NEIGHBOUR pointers
+    dib_w = project_statements(dib, r'unsigned u=|COLA_ASSERT|\bw\b|nweights', "dijkstra_init [loop body, statements about the weight]")
+    dib_n = project_statements(dib, r'unsigned u=|COLA_ASSERT|neighbours', "dijkstra_init [loop body, statements about the neighbour pointers]")
+    def _vt(sl):
+        rules = [(r'\bT\b', 'VT', len(re.findall(r'\bT\b', sl.text)))]
+        if re.search(r'\? eweights\[i\] : 1;', sl.text):
+            # front-end workaround: goto-cc types `c ? <double> : 1` as int; the literal is written 1.0 (must-fire)
+            rules.append((r'\? eweights\[i\] : 1;', '? eweights[i] : 1.0;', 1))
+        t = subst(sl, rules)
+        # front-end workaround: goto-cc does not find static members of a class-template instance called with a qualified name;
+        # std::numeric_limits<VT>::f() is routed to the stub's overloaded free function (hit count taken from the text)
+        k = len(re.findall(r'std::numeric_limits<VT>::(\w+)\(\)', t))
+        sl.subst_log.append({"pattern": "std::numeric_limits<VT>::f()", "replacement": "verif_limits_f((VT)0)", "hits": k})
+        return re.sub(r'std::numeric_limits<VT>::(max|min|epsilon)\(\)', lambda m: "verif_limits_" + {"max": "max", "min": "min", "epsilon": "eps"}[m.group(1)] + "((VT)0)", t)
+    def di_cxx(body_text):
+      return ("#define VT double\n" + base + "#include <limits>\ntemplate <class T> struct PairNode;\n"
+              "namespace shortest_paths {\ntypedef std::pair<unsigned,unsigned> Edge;\ntemplate <typename T>\n" + n1.text + "\n"
+              "static void verif_init_body(std::vector<Node<VT> > & vs, std::vector<Edge> const& es, std::valarray<VT> const & eweights, const unsigned n, unsigned i)\n{\n" + body_text + "\n}\n}\n"
+              "// the scene lives on the C++ side; the C harness drives it through these accessors\n"
+              "static shortest_paths::Node<VT> *verif_nodes;   // allocated raw (CBMC's sizeof of a class-template instance is not its array stride)\n"
+              'extern "C" void *malloc(size_t);\n'
+              'extern "C" void w_init_body(unsigned u, unsigned v, double w, int weighted) {\n'
+              "  verif_nodes = (shortest_paths::Node<VT> *)malloc(1024); __CPROVER_assume(verif_nodes != 0);\n"
+              "  for (unsigned k = 0; k < 3; ++k) { verif_nodes[k].neighbours._d = 0; verif_nodes[k].neighbours._n = 0; verif_nodes[k].neighbours._cap = 0; "
+              "verif_nodes[k].nweights._d = 0; verif_nodes[k].nweights._n = 0; verif_nodes[k].nweights._cap = 0; }\n"
+              "  std::vector<shortest_paths::Node<VT> > vs; vs._d = verif_nodes; vs._n = 3; vs._cap = 3;\n"
+              "  std::vector<shortest_paths::Edge> es(1); es[0].first = u; es[0].second = v;\n"
+              "  double wbuf[1]; wbuf[0] = w; std::valarray<VT> ew; ew._n = weighted ? 1 : 0; ew._d = wbuf;\n"
+              "  shortest_paths::verif_init_body(vs, es, ew, 3, 0); }\n"
+              'extern "C" unsigned long verif_degree(unsigned k) { return verif_nodes[k].neighbours.size(); }\n'
+              'extern "C" unsigned long verif_nweights(unsigned k) { return verif_nodes[k].nweights.size(); }\n'
+              'extern "C" double verif_weight(unsigned k, unsigned long j) { return verif_nodes[k].nweights[j]; }\n'
+              'extern "C" int verif_neighbour_is(unsigned k, unsigned long j, unsigned t) { return verif_nodes[k].neighbours[j] == &verif_nodes[t] ? 1 : 0; }\n')
+    for part, psl in (("weights", dib_w), ("neighbours", dib_n)):
+        for uu, vv in ((0, 1), (2, 0), (1, 1)):      # the end points are fixed per job (a symbolic choice among node objects exhausts the solver's memory)
+            js.append(Job("dijkstra_init_%s_%d%d" % (part, uu, vv), "U", spec, "h_init_body", cxx=di_cxx(_vt(psl)),
+                          defines=["JOB_init_body", "U_IDX=%d" % uu, "V_IDX=%d" % vv, "PART_%s" % part.upper()], slices=[di, dib, psl, n1],
+                          stub_variant="bounded", replay=replay_c17, flags=["--sat-solver", "cadical"], backend="sat:cadical", unwind=4, timeout=600,
+                          domain="the edge (%d,%d) among 3 nodes, every weight (all doubles, compared bit for bit), weighted or unit; T = double; projection of the loop body onto its "
+                                 "statements about the %s (%d statements kept)" % (uu, vv, part, psl.kept_statements),
+                          expect=[r'h_init_body\.assertion']))
     # ---------------- johnsons: loop body for one source k, dijkstra behind a contract (T -> VT)
     jo = slice_func(SP, r'^void johnsons\(\s*$', "johnsons")
     hdr4, jb = fragment_loop(jo, r'for\(unsigned k=0;k<n;k\+\+\)', "johnsons [loop body for one source]")
@@ -237,6 +288,8 @@ ASSUMPTIONS = [
     "diagonal a reachable pair is scaled by idealLength and marked 2, an unreachable pair keeps the sentinel and is marked 0; the loops themselves (writes through every row "
     "pointer) and the call of johnsons are not; the tail after the post-processing (bounded: one edge) marks the edge's end points adjacent in G and has D outside its frame "
     "(the topology add-on's hook is assumed not to touch D)",
+    "dijkstra_init_*: the loop body of dijkstra_init at T = double for three fixed edges among 3 nodes, as two projections (weights / neighbour pointers): the adjacency "
+    "lists carry exactly the given weight and the other end point",
     "dijkstra_writes_every_entry is a BOUNDED stand-in (3 nodes, the heap hands them out in any order, relaxation abstracted): every node's entry of the output row is written",
     "NOT decided (residue): everything beyond the bounds; agreement of the three algorithms with each other",
 ]
